@@ -131,7 +131,8 @@ def _parse_call(msg: str, func: str) -> Optional[List[Any]]:
 
 def _env(job_env: Dict[str, str]) -> Dict[str, str]:
     env = dict(os.environ)
-    env["PYTHONPATH"] = VERIF + os.pathsep + env.get("PYTHONPATH", "")
+    repo = os.environ.get("VQ_REPO")
+    env["PYTHONPATH"] = (repo + os.pathsep if repo else "") + VERIF + os.pathsep + env.get("PYTHONPATH", "")
     env["PYTHONWARNINGS"] = "ignore"
     env["PYTHONHASHSEED"] = "0"
     env.update(job_env)
